@@ -393,6 +393,13 @@ class List(list, base.Symbolic, pg_typing.CustomTyping):
       if isinstance(item, base.TopologyAware):
         item.sym_setpath(utils.KeyPath(idx, new_path))
 
+  def _reindex_children(self, start: int = 0) -> None:
+    """Updates the paths of children from `start` after a structural change."""
+    for idx in range(start, len(self)):
+      item = list.__getitem__(self, idx)
+      if isinstance(item, base.TopologyAware):
+        item.sym_setpath(utils.KeyPath(idx, self.sym_path))
+
   def _set_item_without_permission_check(  # pytype: disable=signature-mismatch  # overriding-parameter-type-checks
       self, key: int, value: Any) -> Optional[base.FieldUpdate]:
     """Set or add an item without permission check."""
@@ -407,10 +414,15 @@ class List(list, base.Symbolic, pg_typing.CustomTyping):
     if isinstance(value, Insertion):
       should_insert = True
       value = value.value
+      if index < 0:
+        index = max(0, index + len(self))
+
 
     old_value = pg_typing.MISSING_VALUE
     # Replace an existing value.
     if index < len(self) and not should_insert:
+      if -len(self) <= index < 0:
+        index += len(self)
       old_value = list.__getitem__(self, index)
       # Generates no update as old value is the same as the new value.
       if old_value is value:
@@ -420,8 +432,14 @@ class List(list, base.Symbolic, pg_typing.CustomTyping):
     if index < len(self):
       if should_insert:
         list.insert(self, index, new_value)
+        self._reindex_children(index + 1)
       else:
-        list.__setitem__(self, index, new_value)
+        if pg_typing.MISSING_VALUE == new_value:
+          # Replacing an element with MISSING_VALUE removes it.
+          list.__delitem__(self, index)
+          self._reindex_children(index)
+        else:
+          list.__setitem__(self, index, new_value)
         # Detach old value from object tree.
         if isinstance(old_value, base.TopologyAware):
           old_value.sym_setparent(None)
@@ -529,11 +547,11 @@ class List(list, base.Symbolic, pg_typing.CustomTyping):
         if slice_size < len(replacements):
           for i in range(slice_size, len(replacements)):
             replacements[i] = Insertion(replacements[i])
-        else:
-          replacements.extend(
-              [pg_typing.MISSING_VALUE
-               for _ in range(slice_size - len(replacements))])
         positions = [start + i for i in range(len(replacements))]
+        # Surplus elements are removed from the back so indices stay valid.
+        for i in reversed(range(start + len(replacements), start + slice_size)):
+          positions.append(i)
+          replacements.append(pg_typing.MISSING_VALUE)
       else:
         positions = list(range(start, stop, step))
         if len(positions) != len(replacements):
